@@ -73,13 +73,25 @@ theorem legacy_eq (sha256 : Bytes → Bytes) (T : Tables) (hT : C02.TablesOK T =
 theorem single_refuses (sha256 : Bytes → Bytes) (T : Tables) (t : Tx) (i : Nat) (code : List Tok) (ht : Nat)
     (hs : ht &&& 0x1f = 3) (ho : t.outputs.length ≤ i) :
     ∃ e, legacyDigest sha256 T t i code ht = .error e := by
-  sorry
+  have hb2 : ¬ ht &&& 0x1f = 2 := by omega
+  have hn : t.outputs[i]? = none := List.getElem?_eq_none ho
+  unfold legacyDigest
+  simp only [if_neg hb2, if_pos hs, hn]
+  split
+  · exact ⟨_, rfl⟩
+  · exact ⟨_, rfl⟩
 
 /-- the digest does not depend on the scriptSigs already present (they are blanked), nor on witnesses -/
 theorem legacy_ignores_scriptsigs (sha256 : Bytes → Bytes) (T : Tables) (t t' : Tx) (i : Nat) (code : List Tok) (ht : Nat)
     (hv : t'.version = t.version) (hl : t'.locktime = t.locktime) (ho : t'.outputs = t.outputs)
     (hi : t'.inputs.map (fun x => (x.txid, x.index, x.sequence)) = t.inputs.map (fun x => (x.txid, x.index, x.sequence))) :
     legacyDigest sha256 T t' i code ht = legacyDigest sha256 T t i code ht := by
-  sorry
+  have hins0 : (t'.inputs.map fun x => { x with scriptSig := [] }) =
+      (t.inputs.map fun x => { x with scriptSig := [] }) := by
+    have := congrArg (List.map (fun p : Bytes × Int × Bytes =>
+      ({ txid := p.1, index := p.2.1, scriptSig := [], sequence := p.2.2 } : TxIn))) hi
+    simpa only [List.map_map, Function.comp_def] using this
+  unfold legacyDigest
+  simp only [Digest03.toBytes_false, hins0, ho, hv, hl]
 
 end C03
